@@ -77,6 +77,8 @@ class AccessMixin:
                 ci = self.repo.classes.get(cname)
                 if attr == '__class__':
                     return [('ok', st, SV('class', cname))]
+                if attr == '__dict__' and o is not None and '__dict__' in o.fields:
+                    return [('ok', st, o.fields['__dict__'])]
                 if attr == '__dict__' and o is not None:
                     return [('ok', st, SV('instdict', v))]
                 if ci is not None:
